@@ -122,14 +122,18 @@ func (t *mixedTable) next(k Value) (next Value, v Value, ok bool) {
 		i, isInt = ToIntNoString(k)
 	}
 	if isInt {
-		j, v, ok := t.array.next(i)
-		if ok {
-			if j > 0 {
-				return IntValue(j), v, true
+		// Position 0 of the array part means "before the first item" and is
+		// only used for a nil key: the integer key 0 lives in the hash table.
+		if i > 0 || k.IsNil() {
+			j, v, ok := t.array.next(i)
+			if ok {
+				if j > 0 {
+					return IntValue(j), v, true
+				}
+				// In this case we have run out of values in the array, so start the
+				// hash table.
+				return t.hashTable.next(NilValue)
 			}
-			// In this case we have run out of values in the array, so start the
-			// hash table.
-			return t.hashTable.next(NilValue)
 		}
 		k = IntValue(i)
 	}
